@@ -358,7 +358,8 @@ def search(ctx, broken, seeds):
                     return {"input": {"op": "transposed", "engine": name, "table": tn, "offsets": offs, "bytes": src.hex()}, "observed": type(ex).__name__ + ": " + str(ex)[:80], "expected": "the encoding of the gathered bytes"}
                 if te != pe:
                     return {"input": {"op": "transposed", "engine": name, "table": tn, "offsets": offs, "bytes": src.hex()}, "observed": te.decode("latin-1"), "expected": pe.decode("latin-1")}
-            for src in (src, bytes(len(offs)), bytes([0]) + src[1:], src[:-1] + bytes([0])):
+            variants = [src, bytes(len(offs))] + ([bytes([0]) + src[1:], src[:-1] + bytes([0])] if offs else [])     # all of length len(offs)
+            for src in variants:
                 try:
                     back = e.decode_transposed_bytes(e.encode_transposed_bytes(src, offs), offs)
                 except Exception as ex:  # noqa: BLE001
